@@ -187,8 +187,10 @@ static int filter_assembly_str_fsa(const char unfiltered_str[],
       break;
     }
     // last printable ascii character
-    FAIL_IF_MSG((unsigned char)unfiltered_str[i] > '~',
-                "Printable ascii characters only\n");
+    if ((unsigned char)unfiltered_str[i] > '~') {
+      fprintf(stderr, "assembyline: Printable ascii characters only\n");
+      return NA;
+    }
     i++;
   }
   return i;
@@ -203,6 +205,7 @@ static int str_to_instr(struct instr *instr_data, const char unfiltered_str[],
   char filter_str[FILTERED_STR_LEN] = {'\0'};
   // sanitize user input and copy filtered string to filter_str
   int ch_pos = filter_assembly_str_fsa(unfiltered_str, filter_str);
+  FAIL_IF(ch_pos == NA);
   // skip comments/macro
   while (unfiltered_str[ch_pos] != '\n' && unfiltered_str[ch_pos] != '\r' &&
          unfiltered_str[ch_pos] != '\0')
